@@ -16,7 +16,7 @@ func init() {
 		Rule: "one execution = one packet of the reduced C01 space x one prior buffer content; inside it every destination length 0..MarshalSize()+3 is tried for Packet.MarshalTo and Header.MarshalTo (each length is one case); non-trivial = packet has extension padding or RTP padding",
 		Assumptions: []string{
 			"reduced packet space keeps every size-affecting dimension: CSRC {0,1,15}, extension blocks with 0-3 bytes of 32-bit rounding, payload {0,1,5}, RTP padding {none,1,2,5,255}; thorough uses the full C01 quick space",
-			"prior destination contents: all 00, all FF, all A5, i -> i",
+			"prior destination contents: all 00, all FF, all A5, i -> i; destinations with capacity == length and windows into a larger array (length < capacity: nothing behind the window may change)",
 		},
 		Scenarios: []mc.Scenario{
 			{Name: "every-destination-length", Tiers: "qt", ShardDepth: 4, Run: c04Run},
@@ -45,6 +45,7 @@ func c04Run(c *mc.Ctx) {
 		level = spaceQuick
 	}
 	pat := c.Pick(4)
+	spare := c.Bool() // destination has spare capacity behind its length
 	p, w := genPacket(c, level, fixedPresets[c.Pick(2)])
 	if c.Verbose() {
 		c.Notef("packet: %s; prior buffer pattern %d; destination lengths 0..%d", describeWire(w), pat, p.MarshalSize()+3)
@@ -64,11 +65,18 @@ func c04Run(c *mc.Ctx) {
 	c04Fill(ref, pat)
 	for L := 0; L <= size+3; L++ {
 		dst := buf[:L:L]
+		if spare {
+			dst = buf[:L] // a window into a larger array: len < cap
+			c04Fill(buf, pat)
+		}
 		c04Fill(dst, pat)
 		n, err := p.MarshalTo(dst)
 		if L < size {
 			if !errors.Is(err, io.ErrShortBuffer) {
-				c.Failf("short-buffer", "%s: MarshalTo(%d bytes) with MarshalSize %d returned n=%d err=%v, want io.ErrShortBuffer", describeWire(w), L, size, n, err)
+				c.Failf("short-buffer", "%s: MarshalTo(%d bytes, capacity %d) with MarshalSize %d returned n=%d err=%v, want io.ErrShortBuffer", describeWire(w), L, cap(dst), size, n, err)
+			}
+			if spare && L >= hsize && !bytes.Equal(buf[L:], ref[L:]) {
+				c.Failf("wrote-beyond", "%s: MarshalTo into a %d-byte window of a larger array (too short) changed bytes behind the window", describeWire(w), L)
 			}
 		} else {
 			if err != nil || n != size {
@@ -84,11 +92,17 @@ func c04Run(c *mc.Ctx) {
 		if L > hsize+3 {
 			continue
 		}
+		if spare {
+			c04Fill(buf, pat)
+		}
 		c04Fill(dst, pat)
 		n, err = p.Header.MarshalTo(dst)
 		if L < hsize {
 			if !errors.Is(err, io.ErrShortBuffer) {
-				c.Failf("short-buffer", "%s: Header.MarshalTo(%d bytes) with MarshalSize %d returned n=%d err=%v", describeWire(w), L, hsize, n, err)
+				c.Failf("short-buffer", "%s: Header.MarshalTo(%d bytes, capacity %d) with MarshalSize %d returned n=%d err=%v", describeWire(w), L, cap(dst), hsize, n, err)
+			}
+			if spare && !bytes.Equal(buf[L:], ref[L:]) {
+				c.Failf("wrote-beyond", "%s: Header.MarshalTo into a %d-byte window of a larger array (too short) changed bytes behind the window", describeWire(w), L)
 			}
 		} else {
 			if err != nil || n != hsize || !bytes.Equal(dst[:n], hwant) {
